@@ -412,6 +412,12 @@ func evalConstructorDeclareStmt(vm *r.VM, node *syntax.FunctionDeclareStmt) erro
 	if !ok {
 		return zerr.InvalidClassType(className.GetLiteral())
 	}
+	// a constructor written for a predefined type (如何新建异常？) is code of the
+	// module it is written in: its frames cannot belong to the native module
+	// (which has no scope table for definitions or handlers inside the body)
+	if module == nil || module == r.NativeCodeModule {
+		module = vm.GetCurrentModule()
+	}
 
 	//// there are some different Factors from normal method function:
 	// 1. no outerScope (clousure scope)
